@@ -70,9 +70,29 @@ func scenarios(tier string) []svc.Scenario {
 			svc.Scenario{Name: "two-tags-edit", Program: []string{"import:P1", "addtag:tag/p=cport:1", "addtag:tag/q=sport:53", "updtag:tag/p=cport:2000", "import:P2", "deltag:tag/q"}},
 			svc.Scenario{Name: "three-tags", Program: []string{"addtag:tag/p=cport:1", "addtag:tag/d=cdata:foo3", "addtag:service/s=sport:53", "import:P1", "import:P3"}},
 			svc.Scenario{Name: "converter-fruitless-job-two-tags", Converter: true, Program: []string{"import:P1+P2", "addtag:tag/p=cport:1", "addtag:tag/q=sport:80", "converters:tag/p=conv", "import:P5", "converters:tag/q=conv"}},
-			svc.Scenario{Name: "restart", Program: []string{"import:P1", "addtag:tag/d=cdata:foo", "import:P2", "restart", "import:P3", "view.open:v1"}},
+			svc.Scenario{Name: "restart", Workers: 3, Program: []string{"import:P1", "addtag:tag/d=cdata:foo", "import:P2", "restart", "import:P3", "view.open:v1"}},
 		)
 	}
+	// start-up on existing index files of every size pattern, a period in which merges fail, one more
+	// import: the merge eligibility rule with its count of files it has given up on
+	sizes := []int{1, 5}
+	maxFiles := 3
+	if tier == "thorough" {
+		sizes, maxFiles = []int{1, 2, 5}, 4
+	}
+	var gen func(cur []int)
+	gen = func(cur []int) {
+		if len(cur) >= 2 {
+			sc = append(sc, svc.Scenario{Name: "prebuilt" + fmt.Sprint(cur), Prebuilt: append([]int{}, cur...), Program: []string{"fault:mergedir-gone", "import:P4", "fault:mergedir-back", "import:P5"}})
+		}
+		if len(cur) == maxFiles {
+			return
+		}
+		for _, n := range sizes {
+			gen(append(cur, n))
+		}
+	}
+	gen(nil)
 	if only := os.Getenv("VERIF_ONLY_SCENARIO"); only != "" {
 		// development aid: the evidence of such a run names the filter
 		var f []svc.Scenario
@@ -208,10 +228,13 @@ func exploreAll(tier string, budget time.Duration, cap int64, convBin string, on
 	// the levels of one scenario's search are often narrower than the machine: several scenarios are
 	// explored at the same time (each world is a service of its own; the hooks are keyed by the service)
 	rows := make([]row, len(scs))
-	sem := make(chan struct{}, 4)
+	sem := make(chan struct{}, scenarioParallelism())
 	var wg sync.WaitGroup
 	var mu sync.Mutex
 	for i := range scs {
+		if scs[i].Workers != 0 {
+			continue // explored alone afterwards
+		}
 		wg.Add(1)
 		sem <- struct{}{}
 		go func(i int) {
@@ -227,6 +250,14 @@ func exploreAll(tier string, budget time.Duration, cap int64, convBin string, on
 		}(i)
 	}
 	wg.Wait()
+	for i := range scs {
+		if scs[i].Workers == 0 {
+			continue
+		}
+		sc := &scs[i]
+		st := svc.Explore(sc, convBin, cap, end.Add(3*time.Minute), func(path []string, v svc.V) { onV(sc, path, v) })
+		rows[i] = row{sc.Name, st}
+	}
 	return rows
 }
 
@@ -275,7 +306,7 @@ func Replay(tier, scenario string, path []string) int {
 		if sc.Converter {
 			bin = convBin
 		}
-		w, err := svc.NewWorld(bin)
+		w, err := svc.NewWorldPrebuilt(bin, sc.Prebuilt)
 		if err != nil {
 			mc.Fatal("%v", err)
 		}
@@ -334,4 +365,15 @@ func Replay(tier, scenario string, path []string) int {
 	}
 	fmt.Println("unknown scenario", scenario)
 	return 2
+}
+
+// scenarioParallelism: how many scenarios are explored at the same time (VERIF_SCENARIO_PAR overrides).
+func scenarioParallelism() int {
+	if s := os.Getenv("VERIF_SCENARIO_PAR"); s != "" {
+		var n int
+		if _, err := fmt.Sscan(s, &n); err == nil && n >= 1 {
+			return n
+		}
+	}
+	return 4
 }
